@@ -23,6 +23,7 @@ def run(ctx: Ctx):
     ctx.rule("RT-roundtrip: symbolic export->import: constructor input == exported content (keys, value tokens, data cells, model)")
     n = rc.run_format(ctx, rt, "C06", "json", ())
     rc.r_to_dict(ctx, rt, "C06")
+    rc.r_registered_material(ctx, rt, "C06")
     rc.r_model_dict(ctx, rt, "C06")
     ctx.floor("symbolic JSON round trips", n, 12)
     ctx.analysed["functions"] = ["isotherm_to_json", "isotherm_from_json", "BaseIsotherm.to_dict", "BaseIsotherm.__init__",
